@@ -226,6 +226,12 @@ def main():
             oracle("iterate-unpack", lambda s: atuple([e for e in s][::-1]), x)
             oracle("tuple-constructor", lambda s: atuple([s[j] for j in range(n)]), x)
             oracle("list-constructor", lambda s: alist([s[-1 - j] for j in range(n)]), x)
+            # constructors with constant entries BEFORE and between the traced ones (forward mode routes each tangent to
+            # the position of ITS entry)
+            oracle("tuple-constructor-with-constants", lambda s: atuple([2.0, s[0], onp.ones(2), s[-1]]), x)
+            oracle("list-constructor-with-constants", lambda s: alist([onp.zeros(2), 1.0, s[-1], 3.0, s[0]]), x)
+            oracle("dict-constructor-with-constants", lambda s: adict({"c": 1.0, "t": s[-1], "d": onp.ones(2), "u": s[0]}), x)
+            oracle("constructor-then-index", lambda s: alist([1.0, s[-1]])[1], x)
             oracle("len-steered", lambda s: s[len(s) - 1], x)
             oracle("slice-then-index", lambda s: s[0:n][n - 1], x)
             oracle("concat-then-slice", lambda s: (s + type(x)([s[0]]))[1:], x)
